@@ -951,7 +951,14 @@ impl DefaultFunction {
                     })
                     .collect();
 
-                let i: u64 = i.try_into().unwrap();
+                // Constructor tags are carried as u64 by the underlying data type.
+                let Ok(i) = u64::try_from(i) else {
+                    return Err(if i.sign() == num_bigint::Sign::Minus {
+                        Error::OutsideNaturalBounds(i.clone())
+                    } else {
+                        Error::OverflowError
+                    });
+                };
 
                 let constr_data = Data::constr(i, data_list);
 
